@@ -290,8 +290,8 @@ def feasible(spec):
         if s.get("split"):
             for o in spec["observations"]:
                 lo, hi = s["split"][o["name"]]
-                if lo > nm or lo > hi or hi < s.get("min", 1) or lo < 1:
-                    return False
+                if lo > nm or lo > hi or hi < s.get("min", 1) or lo < 1 or s.get("min", 1) > nm:
+                    return False          # (a minimum above the cluster size can never be met)
         else:
             if nm // s.get("partitions", 1) < max(1, s.get("min", 1)):
                 return False
